@@ -86,10 +86,26 @@ def post_noinplace_receiver_untouched(r):
 
 
 def post_inplace_agrees(r):
-    """the in-place form applied to a copy gives the value the copying form returns"""
+    """the in-place form applied to a copy gives the value the copying form returns (same text, and - clause
+    post_inplace_agrees_view - the same settings on every character)"""
     if r.inplace:
         return True
     cpy = r.old_self.copy()
     m = getattr(cpy, r.mname)
     r2 = m(*r.margs, inplace=True)
-    return r2 is cpy and eq_value(r2, r.result)
+    return r2 is cpy and r2._s == r.result._s
+
+
+def inplace_k_range(r):
+    if r.inplace:
+        return (0, 0)
+    return (0, len(r.result._s))
+
+
+def post_inplace_agrees_view(r):
+    if r.inplace:
+        return True
+    cpy = r.old_self.copy()
+    m = getattr(cpy, r.mname)
+    r2 = m(*r.margs, inplace=True)
+    return view_texts(r2, r.k) == view_texts(r.result, r.k)
